@@ -12,8 +12,11 @@ Go facts mirrored:
   strict `<` (ties go to the earlier kind); stores the kind in `c.timerOp`, arms the timer for
   `min - now` (≤ 0 fires at once).  `onTimerOp` reads `c.timerOp` when it runs.
 * `NewClient`: `ClientStaleCloseDelay > 0` → `timerOp = stale`, timer armed.
-* stale: `closeStale` closes with DisconnectStale iff not authenticated (or unusable); otherwise
+* stale: `closeStale` closes with DisconnectStale iff not authenticated or `unusable`; otherwise
   nothing — in particular NO re-arm.
+* a connect command answered with an error reply marks the connection `unusable` (it may already be
+  `authenticated`: e.g. a connect-time server-side subscription refused); the timers of a connected client
+  are never scheduled, the stale timer stays armed; every later command → DisconnectBadRequest.
 * ping: `lastPing = now`; ping frame; `pongTimeout > 0 && !unidirectional` → `nextPong = now + pongTimeout`;
   `nextPing = now + pingInterval`; reschedule.
 * pong command: before authentication → DisconnectBadRequest; `lastPing ≤ 0` (no ping outstanding,
@@ -45,7 +48,7 @@ Go facts mirrored:
   not client-side-refresh → DisconnectBadRequest; handler error → error reply; `reply.Expired` →
   DisconnectExpired (fix 0280a82e of C36-3); `ExpireAt > 0 ∧ ExpireAt < unix now` → ErrorExpired; else `expireAt := ExpireAt`.
 * `close`: status closed, timer stopped, transport gets the disconnect code.
-Not modelled: `unusable` connections, server-side subscriptions (DisconnectSubExpired), presence
+Not modelled: connect errors before authentication, server-side subscriptions (DisconnectSubExpired), presence
 manager / position checks on the tick, TimerScheduler offloading (same outcome once settled),
 `maxTTLSeconds` capping, callbacks that answer asynchronously.
 -/
@@ -88,6 +91,7 @@ deriving Repr, DecidableEq, Inhabited
 structure St where
   status : Status := .connecting
   auth : Bool := false
+  unusable : Bool := false         -- the connect command was answered with an error (after authentication or not)
   timerOp : TOp := .stale
   armed : Option Nat := none       -- deadline the single timer is armed for
   nextExpire : Nat := 0
@@ -121,6 +125,8 @@ inductive Op
   | new
   | fire
   | connect (exp : Nat) (jp jr : Nat)   -- credentials ExpireAt = unix now + exp (0: none); jitters drawn
+  | connectFail                          -- connect command that fails AFTER authentication (a connect-time
+                                         -- server-side subscription is refused with ErrorExpired)
   | pong
   | refresh (a : Ans)
   | srefresh (a : Ans)
@@ -243,7 +249,7 @@ def checkPong (s : St) : St × List Out :=
 /-- the operation `onTimerOp` dispatches to (the timer has just been consumed) -/
 def fireOp (c : Cfg) (s : St) (now : Nat) : St × List Out :=
   match s.timerOp with
-  | .stale => if !s.auth then close s dStale else (s, [])
+  | .stale => if !s.auth || s.unusable then close s dStale else (s, [])
   | .presence => presenceTick c s now
   | .expire => expire c s now
   | .ping => sendPing c s now
@@ -270,6 +276,7 @@ def step (c : Cfg) (s : St) (now : Nat) : Op → St × List Out
   | .fire => fire c s now
   | .connect e jp jr =>
     if s.status = .closed then (s, [])
+    else if s.unusable then close s dBadRequest      -- HandleCommand: unusable → DisconnectBadRequest
     else if s.auth then close s dBadRequest
     else
       let exp := if e > 0 then unix c now + e else 0
@@ -278,13 +285,21 @@ def step (c : Cfg) (s : St) (now : Nat) : Op → St × List Out
                         nextExpire := if exp > 0 then now + e * c.sec + (if c.csr then c.ecd else 0) else s.nextExpire,
                         nextPing := if c.pingInterval > 0 then now + jp else s.nextPing }
       (schedule s, [.connected (decide (exp > 0) && c.csr) (if c.csr then e else 0)])
+  | .connectFail =>
+    if s.status = .closed then (s, [])
+    else if s.unusable then close s dBadRequest
+    else if s.auth then close s dBadRequest
+    else if c.uni then close s dExpired      -- Client.Connect turns the error into a disconnect
+    else ({ s with auth := true, unusable := true }, [.err eExpired])
   | .pong =>
     if s.status = .closed then (s, [])
+    else if s.unusable then close s dBadRequest      -- HandleCommand: unusable → DisconnectBadRequest
     else if !s.auth then close s dBadRequest
     else if s.lastPing = 0 ∨ s.ponged then close s dBadRequest
     else ({ s with ponged := true, lastSeen := now }, [])
   | .refresh a =>
     if s.status = .closed then (s, [])
+    else if s.unusable then close s dBadRequest      -- HandleCommand: unusable → DisconnectBadRequest
     else if !s.auth then close s dBadRequest
     else if !c.hasRH then (s, [.err eNotAvailable])
     else if !c.csr then close s dBadRequest
@@ -307,6 +322,7 @@ def step (c : Cfg) (s : St) (now : Nat) : Op → St × List Out
       else close s dExpired
   | .sub ch ttl csr =>
     if s.status = .closed then (s, [])
+    else if s.unusable then close s dBadRequest      -- HandleCommand: unusable → DisconnectBadRequest
     else if !s.auth then close s dBadRequest
     else if s.subs.any (·.ch == ch) then (s, [.err eAlreadySubscribed])
     else
@@ -315,6 +331,7 @@ def step (c : Cfg) (s : St) (now : Nat) : Op → St × List Out
        [.subscribed (decide (ttl > 0) && csr) (if csr then ttl else 0)])
   | .subrefresh ch a =>
     if s.status = .closed then (s, [])
+    else if s.unusable then close s dBadRequest      -- HandleCommand: unusable → DisconnectBadRequest
     else if !s.auth then close s dBadRequest
     else match s.subs.find? (·.ch == ch) with
       | none => (s, [.err ePermissionDenied])
